@@ -111,6 +111,18 @@ func (g *ygen) str(s string, allowConcat bool) (string, string) {
 		return dquote(s), st
 	case "concat":
 		r := []rune(s)
+		if rapid.IntRange(0, 5).Draw(g.t, "many-parts") == 0 {
+			// one character per part, padded with empty parts: any number of parts is legal
+			var parts []string
+			for _, c := range r {
+				parts = append(parts, dquote(string(c)))
+			}
+			for want := rapid.SampledFrom([]int{3, 20, 31, 32, 33, 40, 70}).Draw(g.t, "nparts"); len(parts) < want; {
+				at := rapid.IntRange(0, len(parts)).Draw(g.t, "pad-at")
+				parts = append(parts[:at], append([]string{"''"}, parts[at:]...)...)
+			}
+			return strings.Join(parts, " + "), "concat-many"
+		}
 		k := rapid.IntRange(1, len(r)-1).Draw(g.t, "split")
 		a, _ := g.str(string(r[:k]), false)
 		b, _ := g.str(string(r[k:]), false)
